@@ -251,7 +251,7 @@ func (vc *VC) applyContract(info *calleeInfo, args []Term, argTypes []types.Type
 	}
 	for _, c := range vc.decl.Clauses {
 		if (c.Callee == shortCallee(info.name) || c.Callee == info.name) && c.CallK == k && c.Kind == "ghost" && c.Anchor == "after-call" {
-			vc.ghostBlockAt(c, pos, results)
+			vc.ghostBlockAtT(c, pos, results, resTypes)
 		}
 	}
 	return results
@@ -310,9 +310,24 @@ func (vc *VC) havocTarget(tg modTarget) {
 // ---- ghost code ---------------------------------------------------------------------------------------
 
 func (vc *VC) ghostBlockAt(c *Clause, pos token.Pos, results []Term) {
+	vc.ghostBlockAtT(c, pos, results, nil)
+}
+
+// ghostBlockAtT runs ghost code anchored at a call; the call's results are visible as callres
+// (callres0, callres1, ... for several results).
+func (vc *VC) ghostBlockAtT(c *Clause, pos token.Pos, results []Term, types []types.Type) {
 	ctx := vc.ctx(vc.cur, vc.entry)
 	ctx.loopScope = pos
-	vc.runGhost(c, ctx, results)
+	for i := range results {
+		if i < len(types) {
+			b := binding{t: results[i], typ: goT(types[i])}
+			ctx.vars[fmt.Sprintf("callres%d", i)] = b
+			if i == 0 {
+				ctx.vars["callres"] = b
+			}
+		}
+	}
+	vc.runGhost(c, ctx, nil)
 }
 
 func (vc *VC) ghostBlock(c *Clause, cur, old *State, results []Term) {
@@ -341,7 +356,7 @@ func (vc *VC) runGhost(c *Clause, ctx *sctx, results []Term) {
 				panic(specErr(s.LHS, "ghost assignment needs a single ghost location"))
 			}
 			tg := tgs[0]
-			if !strings.HasPrefix(tg.comp, "G.") {
+			if !strings.HasPrefix(tg.comp, "G.") && !strings.HasPrefix(tg.comp, "L.") {
 				panic(specErr(s.LHS, "ghost code may assign only ghost state"))
 			}
 			if tg.whole {
@@ -357,6 +372,21 @@ func (vc *VC) runGhost(c *Clause, ctx *sctx, results []Term) {
 
 func (vc *VC) builtin(x *ssa.Call, b *ssa.Builtin) {
 	args := x.Call.Args
+	if !strings.HasPrefix(b.Name(), "ssa:") {
+		k := vc.callCount[b.Name()]
+		vc.callCount[b.Name()] = k + 1
+		defer func() {
+			for _, c := range vc.decl.Clauses {
+				if c.Callee == b.Name() && c.CallK == k && c.Kind == "ghost" && c.Anchor == "after-call" {
+					if t, ok := vc.vals[x]; ok {
+						vc.ghostBlockAtT(c, x.Pos(), []Term{t}, []types.Type{x.Type()})
+					} else {
+						vc.ghostBlockAt(c, x.Pos(), nil)
+					}
+				}
+			}
+		}()
+	}
 	switch b.Name() {
 	case "ssa:deferstack":
 		vc.vals[x] = "0"
@@ -432,13 +462,27 @@ func (vc *VC) appendBuiltin(x *ssa.Call) {
 	t := vc.val(args[1])
 	comp, cs := vc.elemsComp(et)
 	es := vc.reg.sortOf(et)
+	slen := vc.define("slen", sInt, app("ys.len", s))
+	soff := vc.define("soff", sInt, app("ys.off", s))
 	n := vc.define("an", sInt, app("ys.len", t))
-	newLen := vc.define("alen", sInt, app("+", app("ys.len", s), n))
+	newLen := vc.define("alen", sInt, app("+", slen, n))
 	fits := vc.define("fits", sBool, app("<=", newLen, app("ys.cap", s)))
 	cur := vc.comp(vc.cur, comp, cs)
 	src := vc.define("asrc", "(Array Int "+es+")", app("select", cur, app("ys.arr", t)))
 	dstOld := vc.define("adst", "(Array Int "+es+")", app("select", cur, app("ys.arr", s)))
-	// single-element appends (the common case) stay quantifier-free
+	r := vc.define("aref", sInt, vc.next(vc.cur))
+	newCap := vc.fresh("acap", sInt)
+	vc.assume(and(app(">=", newCap, newLen), app("<=", newCap, "72057594037927936")))
+	// the result's backing array (the old one if the elements fit, a fresh one otherwise), its offset
+	// and its new content A, described uniformly relative to the result's offset
+	rarr := vc.define("rarr", sInt, ite(fits, app("ys.arr", s), r))
+	roff := vc.define("roff", sInt, ite(fits, soff, "0"))
+	A := vc.fresh("acontent", "(Array Int "+es+")")
+	sel := func(a, k Term) Term { return app("select", a, k) }
+	// old elements keep their values
+	vc.assume(fmt.Sprintf("(forall ((k Int)) (! (=> (and (<= %s k) (< k (+ %s %s))) (= %s %s)) :pattern (%s)))",
+		roff, roff, slen, sel(A, "k"), sel(dstOld, app("+", soff, app("-", "k", roff))), sel(A, "k")))
+	// appended elements: a single one (the common case) without a quantifier
 	single := false
 	if sl, ok := args[1].(*ssa.Slice); ok {
 		if a, ok := sl.X.(*ssa.Alloc); ok && a.Comment == "varargs" {
@@ -447,33 +491,19 @@ func (vc *VC) appendBuiltin(x *ssa.Call) {
 			}
 		}
 	}
-	r := vc.define("aref", sInt, vc.next(vc.cur))
-	newCap := vc.fresh("acap", sInt)
-	vc.assume(and(app(">=", newCap, newLen), app("<=", newCap, "72057594037927936")))
-	var inPlace, grown Term
 	if single {
-		el := app("select", src, app("ys.off", t))
-		inPlace = app("store", dstOld, app("+", app("ys.off", s), app("ys.len", s)), el)
-		g := vc.fresh("agrow", "(Array Int "+es+")")
-		vc.assume(implies(not(fits), and(
-			fmt.Sprintf("(forall ((k Int)) (! (=> (and (<= 0 k) (< k %s)) (= (select %s k) (select %s (+ %s k)))) :pattern ((select %s k))))", app("ys.len", s), g, dstOld, app("ys.off", s), g),
-			eq(app("select", g, app("ys.len", s)), el))))
-		grown = g
+		vc.assume(eq(sel(A, app("+", roff, slen)), sel(src, app("ys.off", t))))
 	} else {
-		ip := vc.fresh("ainpl", "(Array Int "+es+")")
-		base := app("+", app("ys.off", s), app("ys.len", s))
-		vc.assume(implies(fits, fmt.Sprintf("(forall ((k Int)) (! (= (select %s k) (ite (and (<= %s k) (< k (+ %s %s))) (select %s (+ %s (- k %s))) (select %s k))) :pattern ((select %s k))))",
-			ip, base, base, n, src, app("ys.off", t), base, dstOld, ip)))
-		inPlace = ip
-		g := vc.fresh("agrow", "(Array Int "+es+")")
-		vc.assume(implies(not(fits), fmt.Sprintf("(forall ((k Int)) (! (and (=> (and (<= 0 k) (< k %s)) (= (select %s k) (select %s (+ %s k)))) (=> (and (<= %s k) (< k %s)) (= (select %s k) (select %s (+ %s (- k %s)))))) :pattern ((select %s k))))",
-			app("ys.len", s), g, dstOld, app("ys.off", s), app("ys.len", s), newLen, g, src, app("ys.off", t), app("ys.len", s), g)))
-		grown = g
+		vc.assume(fmt.Sprintf("(forall ((k Int)) (! (=> (and (<= (+ %s %s) k) (< k (+ %s %s))) (= %s %s)) :pattern (%s)))",
+			roff, slen, roff, newLen, sel(A, "k"), sel(src, app("+", app("ys.off", t), app("-", "k", app("+", roff, slen)))), sel(A, "k")))
 	}
-	// appending nothing to a nil slice yields the nil slice; otherwise grow or write in place
-	vc.setComp(vc.cur, comp, cs, ite(fits, ite(eq(n, "0"), cur, app("store", cur, app("ys.arr", s), inPlace)), app("store", cur, r, grown)))
+	// in place: everything outside the appended range is untouched (visible through aliases)
+	vc.assume(implies(fits, fmt.Sprintf("(forall ((k Int)) (! (=> (or (< k (+ %s %s)) (>= k (+ %s %s))) (= %s %s)) :pattern (%s)))",
+		roff, slen, roff, newLen, sel(A, "k"), sel(dstOld, "k"), sel(A, "k"))))
+	// appending nothing in place changes nothing
+	vc.setComp(vc.cur, comp, cs, ite(and(fits, eq(n, "0")), cur, app("store", cur, rarr, A)))
 	vc.setComp(vc.cur, compNext, sInt, ite(fits, vc.next(vc.cur), app("+", r, "1")))
-	vc.setVal(x, ite(fits, app("ys.mkslice", app("ys.arr", s), app("ys.off", s), newLen, app("ys.cap", s)), app("ys.mkslice", r, "0", newLen, newCap)))
+	vc.setVal(x, app("ys.mkslice", rarr, roff, newLen, ite(fits, app("ys.cap", s), newCap)))
 }
 
 func (vc *VC) copyBuiltin(x *ssa.Call) {
@@ -722,7 +752,7 @@ func (vc *VC) applyLoopFrame(li *loopInfo, pre *State, comps []string) {
 	pos := vc.loopPos(li)
 	for _, c := range comps {
 		s, ok := vc.compSort[c]
-		if !ok || c == compNext || whole[c] || strings.HasPrefix(c, "R.") || strings.HasPrefix(c, "I.") {
+		if !ok || c == compNext || whole[c] || strings.HasPrefix(c, "R.") || strings.HasPrefix(c, "I.") || strings.HasPrefix(c, "L.") {
 			continue
 		}
 		cur := vc.cur.comps[c]
